@@ -219,7 +219,7 @@ def check(run):
                 shutil.rmtree(reuse, ignore_errors=True)
                 os.makedirs(reuse)
                 run.count('catalogues_written_at_a_reused_path')
-            T = gen_catalog.make_tree(rng, nslab=nslab, box=box, velz=velz, smallratio=bool(k % 2), halos_per_slab=hps, int_header=bool(k % 3 == 1), big_ints=bool(k % 4 == 3), root=reuse)
+            T = gen_catalog.make_tree(rng, nslab=nslab, box=box, velz=velz, smallratio=bool(k % 2), halos_per_slab=hps, int_header=bool(k % 3 == 1), big_ints=bool(k % 4 == 3), root=reuse, compression=[None, 'blsc', 'zlib'][k % 3], blsc_block=[64, 16, 256][k % 3])  # blocks far smaller than a column of a few dozen halos
             slabs = T['slab_inds']
         try:
             for cleaned in ((True,) if lc else (True, False)):
@@ -236,6 +236,16 @@ def check(run):
                     run.violation('units-load-fails', dict(error=str(e1 or e2)[:200], **desc))
                     continue
                 check_catalog_pair(run, T, slabs, cleaned, on, off, desc, lc=lc)
+                if not lc:
+                    # one list object naming count and cleaning columns, used for the 'on' and then the 'off' load
+                    shared = ['N', 'x_com', 'sigmavMid_com'] + (['N_merge', 'is_merged_to'] if cleaned else [])
+                    o1, e1 = catoracle.load(T['path'], convert_units=True, cleaned=cleaned, fields=shared)
+                    o0, e2 = catoracle.load(T['path'], convert_units=False, cleaned=cleaned, fields=shared)
+                    run.ev(2)
+                    if e1 or e2:
+                        run.violation('units-load-fails', dict(error=f'{type(e1 or e2).__name__}: {e1 or e2}'[:200], fields=list(shared), **{k2: v for k2, v in desc.items() if k2 != 'fields'}))
+                    else:
+                        check_catalog_pair(run, T, slabs, cleaned, o1, o0, dict(desc, fields='one list object for both loads'), lc=lc)
                 if k < 2:
                     run.sample(dict(desc, BoxSize=box, VelZSpace_to_kms=velz, columns=len(on.halos.colnames), rows=len(on.halos)))
                 # single-column loads of the ratio / derived columns
